@@ -68,6 +68,7 @@ impl Copyright {
     pub fn iter_files(&self) -> impl Iterator<Item = FilesParagraph> {
         self.0
             .paragraphs()
+            .skip(1)
             .filter(|x| x.contains_key("Files"))
             .map(FilesParagraph)
     }
@@ -76,6 +77,7 @@ impl Copyright {
     pub fn iter_licenses(&self) -> impl Iterator<Item = LicenseParagraph> {
         self.0
             .paragraphs()
+            .skip(1)
             .filter(|x| !x.contains_key("Files") && x.contains_key("License"))
             .map(LicenseParagraph)
     }
